@@ -276,6 +276,31 @@ func (c *Ctx) Solve(timeoutMs int, par int, crossCheck bool) {
 		}()
 	}
 	wg.Wait()
+	// Retry pass: an obligation that no solver decided while the others were running is
+	// tried again alone with three times the budget. A time-out under CPU contention (several
+	// checks running side by side) is not evidence of anything; only an obligation that stays
+	// undecided with the machine to itself is reported.
+	retries := 0
+	for _, o := range c.Obls {
+		if o.Status != "unknown" || o.Vacuity || o.KnownClass != "" || retries >= 6 {
+			continue
+		}
+		if strings.HasPrefix(o.Output, "solver disagreement") {
+			continue
+		}
+		retries++
+		r := runSolvers(c.Query(o, true), 3*timeoutMs, false, solvers)
+		if r.status == "unsat" || r.status == "sat" {
+			o.Status, o.Solver, o.Ms = r.status, r.solver+" (retry)", r.ms
+			o.Candidate = false
+			if r.status == "sat" {
+				o.Model = parseModel(r.out)
+				o.Output = truncate(r.out, 4000)
+			} else {
+				o.Output = ""
+			}
+		}
+	}
 }
 
 // QuickUnsat: is the formula unsatisfiable under the assumptions logged so far?
